@@ -56,6 +56,20 @@ Section Restate.
                        h1 h2 h3 h4 h5 h6 h7 h8 h9 h10 h11 h12 h13 h14 h15).
   Qed.
 
+  Lemma alg_jac_correct_long : forall bs layers indices La,
+      1 <= layers -> forallb ok_kind bs = true ->
+      let L := free_parameters_num bs layers in
+      L <= La ->
+      exists c,
+        evaluate A one mul dag Sc ev obs blockU fixedU bs layers (seq 0 La) = Some c /\
+        compute_jac A one add mul dag Sc ev obs blockU fixedU blockdU bs layers (seq 0 La) indices
+        = Some (map (fun j => D j c) (filter (fun j => mem j (requested indices La)) (seq 0 L))).
+  Proof.
+    destruct H as (h1&h2&h3&h4&h5&h6&h7&h8&h9&h10&h11&h12&h13&h14&h15).
+    exact (jac_correct_long A zero one add mul dag Sc ev obs blockU fixedU blockdU d D
+                            h1 h2 h3 h4 h5 h6 h7 h8 h9 h10 h11 h12 h13 h14 h15).
+  Qed.
+
   Lemma alg_jac_length : forall bs layers g,
       1 <= layers -> forallb ok_kind bs = true ->
       compute_jac A one add mul dag Sc ev obs blockU fixedU blockdU bs layers
